@@ -274,6 +274,42 @@ def work_broken(chunk, st):
 
 # ---- the same target listed more than once in one -T run, its scans ending differently (the peer breaks one of its handshakes):
 # a broken scan is a broken scan wherever it stands in the list - the run does not exit 0, 2 or 3
+# ---- long lists: the one name that earns a failure / a warning stands behind N other (clean, repeated) names, N around 64, 128, 256 and
+# beyond: the status is the one the same name earns at the head of a short list
+LONG_BASE = {'kex': 'sntrup761x25519-sha512@openssh.com', 'key': 'ssh-ed25519', 'enc': 'aes256-gcm@openssh.com', 'mac': 'hmac-sha2-256-etm@openssh.com'}
+LONG_WEAK = [('enc', '3des-cbc'), ('mac', 'hmac-md5'), ('kex', 'diffie-hellman-group1-sha1'), ('key', 'ssh-dss'), ('mac', 'hmac-sha2-256'), ('kex', 'curve25519-sha256'),
+             ('enc', 'frob-cipher@example.org')]
+
+
+def long_tasks():
+    return [(cat, weak, pos, role) for cat, weak in LONG_WEAK for pos in (1, 2, 64, 127, 128, 129, 130, 200, 256, 257, 300, 1000) for role in ('server', 'client')]
+
+
+def _long_run(cat, weak, pos, role):
+    lists = {c: [n] for c, n in LONG_BASE.items()}
+    lists[cat] = [LONG_BASE[cat]] * (pos - 1) + [weak]
+    if role == 'server':
+        srv = peer.Server(kex=lists['kex'], key=lists['key'], enc=lists['enc'], mac=lists['mac'], banner=b'SSH-2.0-OpenSSH_9.6',
+                          host_keys=peer.standard_host_keys(['ssh-ed25519']))
+        return H.audit(srv, opts=['-n', '--skip-rate-test', '-j'])
+    cli = peer.Client(kex=lists['kex'], key=lists['key'], enc=lists['enc'], mac=lists['mac'], banner=b'SSH-2.0-OpenSSH_9.6')
+    return H.client_audit(cli, opts=['-n', '-j'])
+
+
+def work_long(chunk, st):
+    for cat, weak, pos, role in chunk:
+        ref = _long_run(cat, weak, 1, role)
+        res = _long_run(cat, weak, pos, role)
+        root = ('long-list', cat, weak, pos, role)
+        st.execution(res.world, outcome=('long-list', res.status), root=root, nontrivial=root, detail='light')
+        if ref.status not in (2, 3):
+            st.violation('long-list:reference-run-shows-no-finding', {'category': cat, 'name': weak, 'status': ref.status})
+        if res.status != ref.status:
+            st.violation('long-list:status-%s-but-the-name-earns-%s:%s' % (res.status, ref.status, 'beyond-128' if pos > 128 else 'within-128'),
+                         {'category': cat, 'name': weak, 'position': pos, 'role': role, 'status': res.status, 'status_at_the_head_of_a_short_list': ref.status})
+    st.sample({'long_lists': [list(x) for x in chunk[:2]]}, cap=4)
+
+
 def repeat_tasks():
     out = []
     faults = [(0, ('reset',)), (1, ('trunc_close', 9)), (1, ('garbage', 40, 3)), (0, ('trunc_stall', 4)), (1, ('len', 0, 'plus1'))]
@@ -442,9 +478,12 @@ def run(tier, seed):
     from props import faultinv as _FI
     par.pmap(_FI.work, _FI.tasks(), extra=(('status',),), stats=st, chunk=6)
     par.pmap(work_repeats, repeat_tasks(), stats=st, chunk=4)
+    par.pmap(work_long, long_tasks(), stats=st, chunk=4)
     par.pmap(work_policy, policy_cases(), stats=st, procs=1)
     from props import delivery as _DL
     par.pmap(_DL.work, _DL.tasks(tier), extra=(('status',),), stats=st, chunk=12)
+    from props import decor as _DC
+    par.pmap(_DC.work, _DC.tasks(tier), extra=(('status',),), stats=st, chunk=8)
     vcases = []
     for sel in H.pick(sorted(sev), seed, 12 if tier == 'quick' else 60):
         for opts in H.pick(OPTSETS, seed + len(vcases), 2):
